@@ -13,6 +13,7 @@ Inductive bop := BIns (first : positive) (n : nat)   (* rows first .. first+n-1 
                | BTick | BFlush.
 
 Record bigcase := mkbig {
+  g_max : Z;                                   (* the threshold the documentation promises for this executor *)
   g_ops : list bop;
   g_adds : list (positive * N * N);            (* row id, Insert call, Insert return; in id order *)
   g_calls : list (N * N);                      (* Flush call, return *)
@@ -50,8 +51,20 @@ Record case := mkcase {
   c_stat : bool;                     (* stat.Metrics case: c_reports is aligned with c_batches *)
   c_drops : nat;                     (* number of AddDrop calls *)
   c_reports : list repobs;
-  c_big : option bigcase             (* Some: sqlx.BulkInserter case, everything else is ignored *)
+  c_big : option bigcase;            (* Some: large-batch case (sqlx.BulkInserter / default BulkExecutor):
+                                        the small-case observations are ignored *)
+  c_ivl : list Z;                    (* observed flush interval(s), ns: the executor's field, and what the flusher
+                                        asked its ticker for (if it started) *)
+  c_ivl_exp : Z                      (* the interval the executor was configured with / the documented default *)
 }.
+
+(* documented defaults (bulkexecutor.go / chunkexecutor.go / vars.go), regenerated from the source *)
+Definition default_bulk_tasks : Z := C16_Gen.defaultBulkTasks.
+Definition default_chunk_size : Z := C16_Gen.defaultChunkSize.
+Definition default_interval : Z := C16_Gen.defaultFlushInterval.
+
+(* the executor runs with its own configuration, whatever executors were created before it *)
+Definition ivl_ok (c : case) : bool := forallb (Z.eqb (c_ivl_exp c)) (c_ivl c).
 
 Definition second : Z := 1000000000.
 Definition t0 : Z := 3600 * second.
@@ -59,7 +72,7 @@ Definition t0 : Z := 3600 * second.
 Definition size_of (c : case) (x : nat) : Z :=
   match alookup Nat.eqb x (c_sizes c) with Some z => z | None => 0 end.
 
-Definition cfg_of (c : case) : config := mkcfg (c_chunk c) (c_max c) (size_of c) second.
+Definition cfg_of (c : case) : config := mkcfg (c_chunk c) (c_max c) (size_of c) (c_ivl_exp c).
 
 Fixpoint all2 {A B} (f : A -> B -> bool) (l1 : list A) (l2 : list B) : bool :=
   match l1, l2 with
@@ -245,11 +258,22 @@ Definition stat_ok (c : case) : bool :=
             Nat.eqb (r_rdrops r) (r_drops r) && (r_sum_ms r =? r_dur_ms r)) (c_batches c) (c_reports c)
   else true.
 
+(* sequential scripts only: a batch that no tick and no explicit Flush/Wait accounts for (its execution does not
+   start within one of those operations) was flushed by the size / byte threshold, so it has reached it *)
+Definition attributable (c : case) (m : nat) : bool :=
+  existsb (fun k => Nat.ltb (k_call k) m && Nat.ltb m (k_ret k)) (c_calls c) ||
+  existsb (fun t => Nat.ltb (t_seq t) m && Nat.ltb m (t_done t)) (c_ticks c).
+
+Definition threshold_ok (c : case) : bool :=
+  forallb (fun b => attributable c (b_start b) ||
+                    (if c_chunk c then c_max c <=? sum_sizes c (b_ids b)
+                     else c_max c <=? Z.of_nat (length (b_ids b)))) (c_batches c).
+
 Definition small_spec_ok (c : case) : bool :=
   no_hang c && at_most_once c &&
   forallb (fun b => ordered c (b_ids b) && bound_ok c (b_ids b)) (c_batches c) &&
   wait_ok c && stat_ok c &&
-  (if c_seq c then flush_ok c && ticks_ok c (c_ticks c) else true).
+  (if c_seq c then flush_ok c && ticks_ok c (c_ticks c) && threshold_ok c else true).
 
 (* ---------- sqlx.BulkInserter ---------- *)
 Definition max_bulk_rows : Z := C16_Gen.maxBulkRows.
@@ -284,7 +308,7 @@ Fixpoint big_model (mx : Z) (s : bst) (ops : list bop) (ticks : list (N * bool *
   end.
 
 Definition big_model_ok (g : bigcase) : bool :=
-  match big_model max_bulk_rows (mkbst [] false false []) (g_ops g) (g_ticks g) with
+  match big_model (g_max g) (mkbst [] false false []) (g_ops g) (g_ticks g) with
   | Some s => list_eqb (list_eqb Pos.eqb) (rev (bs_out s)) (map (fun b => fst (fst b)) (g_batches g)) && negb (g_hung g)
   | None => false
   end.
@@ -338,6 +362,11 @@ Fixpoint big_ticks_ok (g : bigcase) (ends : PM.t N) (l : list (N * bool * N)) : 
       end && big_ticks_ok g ends r
   end.
 
+(* a statement / batch that no tick and no Flush accounts for was cut off by the row threshold: it is full *)
+Definition big_attributable (g : bigcase) (m : N) : bool :=
+  existsb (fun k => (fst k <? m) && (m <? snd k))%N (g_calls g) ||
+  existsb (fun t => (fst (fst t) <? m) && (m <? snd t))%N (g_ticks g).
+
 Definition big_spec_ok (g : bigcase) : bool :=
   negb (g_hung g) && Nat.eqb (g_pending g) 0 &&
   forallb (fun a => negb (snd a =? 0)%N) (g_adds g) && forallb (fun k => negb (snd k =? 0)%N) (g_calls g) &&
@@ -347,7 +376,8 @@ Definition big_spec_ok (g : bigcase) : bool :=
   | Some ends =>
       (* rows within a statement in insertion order, statement row count <= maxBulkRows *)
       forallb (fun b => big_ordered am 0 (fst (fst b)) &&
-                        (Z.of_nat (length (fst (fst b))) <=? max_bulk_rows)) (g_batches g) &&
+                        (Z.of_nat (length (fst (fst b))) <=? g_max g) &&
+                        (big_attributable g (snd (fst b)) || (g_max g <=? Z.of_nat (length (fst (fst b)))))) (g_batches g) &&
       (* an explicit Flush executes every row inserted before it *)
       forallb (fun k => big_done_before g ends (fst k) (snd k)) (g_calls g) &&
       big_ticks_ok g ends (g_ticks g)
@@ -357,7 +387,7 @@ Definition model_ok (c : case) : bool :=
   match c_big c with Some g => big_model_ok g | None => small_model_ok c end.
 
 Definition spec_ok (c : case) : bool :=
-  match c_big c with Some g => big_spec_ok g | None => small_spec_ok c end.
+  ivl_ok c && match c_big c with Some g => big_spec_ok g | None => small_spec_ok c end.
 
 (* input validity: unique task ids, a threshold of at least 1 *)
 Definition hyp_ok (c : case) : bool := nodup_nat (all_ids c) && (1 <=? c_max c).
